@@ -54,6 +54,10 @@ def _run_build(cmd, env, what, cwd=HARNESS):
     t0 = time.time()
     p = subprocess.run(cmd, cwd=cwd, env=env, stdout=subprocess.PIPE, stderr=subprocess.STDOUT, text=True)
     if p.returncode != 0:
+        # one retry: concurrent cargo invocations occasionally trip over each other's locks
+        time.sleep(3)
+        p = subprocess.run(cmd, cwd=cwd, env=env, stdout=subprocess.PIPE, stderr=subprocess.STDOUT, text=True)
+    if p.returncode != 0:
         tail = "\n".join(p.stdout.splitlines()[-40:])
         raise BuildError("build of %s failed (exit %d):\n%s" % (what, p.returncode, tail))
     return time.time() - t0
@@ -495,9 +499,14 @@ def run_rust_property(prop, tier, seed):
     c = m["counters"]
     if c.get("harness_errors", 0):
         inconclusive.append("harness errors: %s" % sorted(m["sets"].get("harness_errors", []))[:3])
+    if c.get("library_panics_outside_this_property", 0):
+        inconclusive.append("the library panicked in %d case(s) at a point this property says nothing about (C01-C06/C10 decide panics); e.g. %s" % (
+            c["library_panics_outside_this_property"], sorted(m["sets"].get("library_panics", []))[:2]))
     if c.get("build_failed_on_valid_input", 0) and prop != "C10":
         inconclusive.append("the builder rejected %d valid pattern set(s) (C10's business); e.g. %s" % (c["build_failed_on_valid_input"], sorted(m["sets"].get("build_errors", []))[:2]))
     floor = FLOOR_OVERRIDE.get((prop, tier), FLOORS[tier])
+    if scale:
+        floor = max(2, int(floor * float(scale) * 0.5))
     if len(m["nontrivial"]) < floor and not violation_lines:
         inconclusive.append("only %d distinct non-trivial cases observed (floor %d)" % (len(m["nontrivial"]), floor))
     if prop == "C11" and c.get("automata_with_block_eviction", 0) == 0:
